@@ -15,12 +15,12 @@ FLUSH = "futures_util::sink::SinkExt::flush"
 MSG = "TopicHandshakeMessage"
 
 
-def wire_events(ctx, b, role):
+def wire_events(ctx, b, role, adt_path="p2panda_sync::protocols::topic_handshake::TopicHandshakeMessage", MSG=MSG, rule="C25.1"):
     """[(kind, variant, call)] of wire sends/receives that dominate the Ok exit, in order"""
-    adt = ctx.prog.adt_by_stripped("p2panda_sync::protocols::topic_handshake::TopicHandshakeMessage")
+    adt = ctx.prog.adt_by_stripped(adt_path)
     vnames = [v["name"] for v in adt["variants"]]
     oks = [bb for k, bb, _ in exit_kinds(b) if k == "ok"]
-    if not ctx.ob("C25.1", "%s: single Ok exit" % role, len(oks) == 1, "%d Ok exits" % len(oks), site=b.loc(), trivial=True):
+    if not ctx.ob(rule, "%s: single Ok exit" % role, len(oks) == 1, "%d Ok exits" % len(oks), site=b.loc(), trivial=True):
         return [], vnames
     ok_bb = oks[0]
     evs = []
